@@ -447,7 +447,7 @@ def hyp_cases(draw, tier):
     if deep:
         spec = draw(gen.forest_specs(max_nodes=16, max_depth=9, max_width=2, unique=uniq, min_nodes=3, opts=opts, alphabet=alpha))
     else:
-        spec = draw(gen.forest_specs(max_nodes=18, max_depth=5, max_width=4, unique=uniq, min_nodes=3, opts=opts, alphabet=alpha))
+        spec = draw(gen.forest_specs(max_nodes=18, max_depth=5, max_width=4, unique=uniq, min_nodes=3, opts=opts, alphabet=alpha, big=8))
     if labels == "eqsib":
         # equal data under distinct explicit data_ids among siblings
         counter = [0]
